@@ -431,7 +431,16 @@ class NAHooks(Hooks):
             return rt
         if name == 'can_cast':
             def cc(frm, to, casting='safe'):
-                f = frm.dt if isinstance(frm, NA) else as_dt(frm)
+                if isinstance(frm, NA):
+                    f = frm.dt
+                elif is_scalar(frm) or isinstance(frm, bool):
+                    f = scalar_dt(frm)
+                    if isinstance(frm, int) and not isinstance(frm, bool):
+                        # value-based: small Python ints fit every numeric
+                        return as_dt(to).d.kind in 'iufc' or (
+                            as_dt(to).d.kind == 'b' and frm in (0, 1))
+                else:
+                    f = as_dt(frm)
                 return bool(_np.can_cast(f.d, as_dt(to).d, casting))
             return cc
         if name == 'issubdtype':
@@ -479,6 +488,15 @@ class NAHooks(Hooks):
                     raise _np_err(e)
                 return NA(res, v.dt)
             return shp
+        if name == 'diff':
+            def diff(v, n=1, axis=-1, **k):
+                v = na_of(v)
+                try:
+                    res = _np.diff(H.ratify(v.a), n=n, axis=axis)
+                except (ValueError, IndexError) as e:
+                    raise _np_err(e)
+                return NA(res, v.dt)
+            return diff
         if name in ('concatenate', 'stack', 'vstack', 'hstack'):
             def cat(seq, *a, **k):
                 ns = [na_of(x) for x in seq]
